@@ -100,7 +100,7 @@ structure RmsIn where
   epsRank : Nat := 0
   /-- `true` (the default, what the driver uses) = the rule of /repo after commits 860eec7 (F6), 655e32d (F7),
       a2dc518 (F10); `false` = the rule before that commit, kept only for the `…_prefix_refuted` theorems. -/
-  fix8 : Bool := false    -- proposed_fixes/ready/C19-F8.diff: the exponent literal is the integer 2 (exact)
+  fix8 : Bool := true    -- /repo commit ca48b9a: the exponent literal is the integer 2 (exact); `false` = before (finding C19-F8)
   fix6 : Bool := true    -- no fusion when the scale's Cast changes its element type
   fix7 : Bool := true    -- no fusion when rank(scale) > rank(x)
   fix10 : Bool := true   -- no fusion when rank(epsilon) > rank(x)
@@ -560,6 +560,7 @@ structure MhaIn where
   past : Bool
   keyT : Bool
   qPermOk : Bool
+  cross : Bool := false         -- cross-attention rules: key/value are already (B,H,Skv,Dh); no past allowed
   rotary : Bool := false        -- com.microsoft.RotaryEmbedding on the transposed query and key
   rotIl : Int := 0              -- their `interleaved` attribute (the harness gives both nodes the same value)
   /-- `true` (default, what the driver uses) = /repo after commit 9411688: `interleaved` is forwarded to the
@@ -583,13 +584,13 @@ def mha (i : MhaIn) : String :=
   match checkShape b1 i.q4 ["B", "S", "H", "Dh"] with
   | none => fail
   | some b2 =>
-  match checkShape b2 i.key ["B", "Skv", "D"] with
+  match checkShape b2 i.key (if i.cross then ["B", "H", "Skv", "Dh"] else ["B", "Skv", "D"]) with
   | none => fail
   | some b3 =>
-  match checkShape b3 i.value ["B", "Skv", "D"] with
+  match checkShape b3 i.value (if i.cross then ["B", "H", "Skv", "Dv"] else ["B", "Skv", "D"]) with
   | none => fail
   | some b4 =>
-    let b6? := if i.past then
+    let b6? := if i.cross then (if i.past then none else some b4) else if i.past then
         (match checkShape b4 i.pastKey ["B", "H", "Spast", "Dh"] with
          | none => none
          | some b5 => checkShape b5 i.pastValue ["B", "H", "Spast", "Dv"])
@@ -621,7 +622,10 @@ def mha (i : MhaIn) : String :=
             s!"RotaryEmbedding@com.microsoft\{{ra}}(query,position_ids,cos,sin)->1 RotaryEmbedding@com.microsoft\{{ra}}(key,position_ids,cos,sin)->1 "
           else ""
         let qk := if i.rotary then "@RotaryEmbedding,@RotaryEmbedding" else "query,key"
-        if i.past then
+        if i.cross then
+          -- key/value are brought to (B,Skv,H·Dh) by Transpose(0,2,1,3) + Reshape([0,0,-1])
+          s!"count=1/0/1 MultiHeadAttention@com.microsoft\{num_heads={h}{sc}}(query,@Reshape,@Reshape,_,_,{m},_,_)->1"
+        else if i.past then
           s!"count=1/1/0 {pre}MultiHeadAttention@com.microsoft\{num_heads={h}{sc}}({qk},value,_,_,{m},past_key,past_value)->3"
         else
           s!"count=1/0/1 {pre}MultiHeadAttention@com.microsoft\{num_heads={h}{sc}}({qk},value,_,_,{m},_,_)->1"
@@ -655,15 +659,17 @@ def listEqShape : List Int → Shape → Bool
   | v :: vs, d :: ds => dimEqInt d v && listEqShape vs ds
   | _, _ => false
 
-def i2g (i : I2gIn) : String :=
-  let ok :=
-    i.wnConst && i.wOnes && i.bZeros
+/-- `check_if_simulated_instance_norm_is_used` -/
+def i2gOk (i : I2gIn) : Bool :=
+  i.wnConst && i.wOnes && i.bZeros
     && i.wf.length == i.x.length - 1 && i.bf.length == i.x.length - 1
     && i.x.length == 4
     && (i.wf.drop 1).all dimIsOne && (i.bf.drop 1).all dimIsOne
     && i.adj == some [0, (i.g : Int), -1]
     && (match i.orig with | some o => listEqShape o i.x | none => false)
-  if ok then
+
+def i2g (i : I2gIn) : String :=
+  if i2gOk i then
     s!"count=1 GroupNorm@com.microsoft\{activation=0;channels_last=1;epsilon={showF i.eps};groups={i.g}}(@Transpose,@Reshape,@Reshape)->1"
   else "count=0"
 
@@ -742,9 +748,9 @@ structure GqaIn where
   ilq : Int                  -- `interleaved` of the two RotaryEmbedding nodes
   ilk : Int
   maskOk : Bool              -- is the mask really the causal-mask pattern?  (NOT consulted, see below)
-  /-- proposed_fixes/ready/C19-F11.diff: no fusion when the head size (dim 3 of `q4`) is a known non-multiple of 16.
-      `false` = today's tree. -/
-  fix11 : Bool := false
+  /-- `true` (default) = /repo after commit 971aae6: no fusion when the head size (dim 3 of `q4`) is a known
+      non-multiple of 16.  `false` = the rule before that commit (finding C19-F11). -/
+  fix11 : Bool := true
 
 def dimAt (s : Option Shape) (k : Nat) : Option Dim :=
   match s with
